@@ -687,6 +687,8 @@ class AffInterp:
 
     # ------------------------------------------------------------------ calls
     def call(self, func, args, kwargs):
+        if func.opaque_decorators:
+            raise AnalysisError("%s is decorated with @%s: calling it is not calling its body (not modelled)" % (func.qualname, ", @".join(func.opaque_decorators)))
         self.depth += 1
         if self.depth > 12:
             raise AnalysisError("call depth exceeded in %s" % func.qualname)
